@@ -1,6 +1,6 @@
 #!/bin/bash
 # collect_mutant.sh <Cxx> [suffix]: confirm a sub-agent's mutant independently and store it under /verif/seeded/<Cxx><suffix>/
-id=$1; suf=$2; wt=/tmp/mut_$id$suf; out=/verif/seeded/$id$suf
+id=$1; suf=$2; wt=${MUT_WT:-/tmp/mut_$id$suf}; out=/verif/seeded/$id$suf
 [ -f $wt/_mutant/patch.diff ] || { echo "$id: no patch"; exit 1; }
 mkdir -p $out
 git -C $wt diff > $out/patch.diff      # authoritative diff of the worktree (source only; _mutant/ is untracked)
